@@ -1,5 +1,6 @@
 import DudModel.Props.C18
 import DudModel.Stage
+import DudModel.Generated.Facts
 /-!
 # C18, the stage-file half — "stage files naming absolute or parent-escaping paths are rejected"
 
@@ -178,6 +179,15 @@ theorem validated_checkout_confined {κ : Type} (t : TCfg κ) (wa : Bool) (stg :
     (h : checkoutNodeT t s fuel (comps a.path) cur a.child = .ok (r, calls)) :
     ∀ call ∈ calls, ∀ p ∈ callPaths call, Confined p :=
   checkout_paths_safe ((validate_paths_safe wa stg sp hv).1 a ha).1 h
+
+/-! ## checksums are not paths -/
+
+/-- **Regenerated-fact obligation.**  `PathForChecksum` inspects every character of the checksum and
+refuses anything but letters and digits (repo fix d539c28): a recorded checksum can therefore not
+name a path outside `<cache>/<two characters>/<rest>`.  (The model's digests are the values of the
+hash function; checksum strings that are not digests are exercised by the C18 hostile-checksum
+stream, not by the model.) -/
+theorem checksum_chars_fact : Dud.Facts.checksumCharsChecked = true := by decide
 
 /-! ## hostile stage files are rejected; the hypotheses are satisfiable -/
 
